@@ -24,6 +24,10 @@ CORE_UNITS = {'as.c', 'asmallg.c', 'asmcode.c', 'asmdef.c'}
 
 def run(chk, facts, info):
     P = facts.program('asl')
+    chk.rule('C10-R8', 'logical (PHASE-adjusted, EProgCounter()) and physical (ProgCounter()) addresses are never compared, '
+             'subtracted or assigned across: a global assigned only from one kind is compared only with that kind',
+             min_instances=2)
+    logical_physical_rule(chk, P, 'C10-R8')
     chk.rule('C10-R1', 'PCs[], Phases[], pPhaseStacks[], PCsUsed[] and ActPC are written only in as.c, asmallg.c, '
              'asmcode.c (and zeroed in asmdef.c at start-up): no code generator and no pseudo-instruction library '
              'moves a counter behind the bookkeeping\'s back', min_instances=20)
